@@ -149,7 +149,8 @@ def asset_inputs() -> Dict[str, List[Dict[str, Any]]]:
     }
     out = {}
     for a, h in hs.items():
-        specs = D.specs_for(h, a.lower(), "chrono")
+        # B2's rows run against time: the same spreadsheet row holds an early lot in one asset and a late lot in another
+        specs = D.specs_for(h, a.lower(), "reverse" if a == "B2" else "chrono")
         assert specs is not None
         out[a] = specs
     return out
@@ -241,12 +242,14 @@ def cli_worker(task: Dict[str, Any]) -> Dict[str, Any]:
         ini = ws.write("config.ini", CS.ini_for(shape))
         ods = cli.write_ods(os.path.join(ws.inp, "input.ods"), CS.matrices(shape))
         fps = []
+        cc = task.get("country", "us")
+        env = {"CURRENCY_CODE": "usd", "LONG_TERM_CAPITAL_GAINS": "365"} if cc == "generic" else None
         for run in task["runs"]:
             argv = ["-o", ws.out] + list(run["opts"]) + [ini, ods]
             if task["mode"] == "fresh":
-                res = cli.run_fresh("us", argv, ws.cwd, ws.out, hashseed=str(run.get("seed", 0)))
+                res = cli.run_fresh(cc, argv, ws.cwd, ws.out, hashseed=str(run.get("seed", 0)), env_extra=env)
             else:
-                res = cli.run_forked("us", argv, ws.cwd, ws.out)
+                res = cli.run_forked(cc, argv, ws.cwd, ws.out, env_extra=env)
             fps.append({"exit": res.exit, "files": report_fingerprint(ws.out), "tail": (res.stderr or res.stdout)[-300:] if res.exit else ""})
             if run.get("clean_after"):
                 ws.clean_out()
@@ -287,6 +290,10 @@ def main(tier: str, budget_s: Optional[float] = None) -> int:
     for shape in seed_shapes:
         for s in seeds_used:
             tasks.append({"kind": "seed", "mode": "fresh", "shape": shape, "seed": s, "runs": [{"opts": ["-m", "hifo"], "seed": s}]})
+    # every entry point with its DEFAULT options (default method, default language) under the same seeds
+    for cc in ("us", "jp", "es", "ie", "generic"):
+        for s in seeds_used:
+            tasks.append({"kind": "seed", "mode": "fresh", "country": cc, "shape": "multi", "seed": s, "runs": [{"opts": [], "seed": s}]})
     histories = [[]] + [[a] for a in range(len(MENU))] + [[a, b] for a in range(len(MENU)) for b in range(len(MENU))]
     for shape in (["multi"] if tier == "quick" else ["multi", "all_types"]):
         tasks.append({"kind": "fresh-dir", "mode": "forked", "shape": shape, "runs": [{"opts": REFERENCE}]})
@@ -312,7 +319,7 @@ def main(tier: str, budget_s: Optional[float] = None) -> int:
             total.violation({"kind": "cli", "task": t, "signature": "C17 cli run failed", "what": f"{t['kind']} on '{t['shape']}': exit {bad['exit']}: {bad['tail'][-200:]}"})
             continue
         if t["kind"] == "seed":
-            by_shape_seed.setdefault(t["shape"], {})[t["seed"]] = last["files"]
+            by_shape_seed.setdefault(f"{t.get('country', 'us')}/{t['shape']}/{' '.join(t['runs'][0]['opts']) or 'default options'}", {})[t["seed"]] = last["files"]
         elif t["kind"] == "fresh-dir":
             fresh_dir[t["shape"]] = last["files"]
     for shape, per_seed in by_shape_seed.items():
@@ -325,7 +332,7 @@ def main(tier: str, budget_s: Optional[float] = None) -> int:
             if files != per_seed[ref_seed]:
                 differing = sorted(k for k in set(files) | set(per_seed[ref_seed]) if files.get(k) != per_seed[ref_seed].get(k))
                 total.violation({"kind": "seed", "shape": shape, "seeds": [ref_seed, s], "signature": f"C17 hash seed changes a report / {differing[0].split('_', 1)[-1]}",
-                                 "what": f"rp2_us -m hifo on '{shape}': PYTHONHASHSEED={s} and ={ref_seed} give different content in {differing}"})
+                                 "what": f"rp2_<country>/<input>/<options> = {shape}: PYTHONHASHSEED={s} and ={ref_seed} give different content in {differing}"})
         total.sample({"part": "c", "shape": shape, "seeds": sorted(per_seed), "set orders covered": order_cov}, cap=12)
     for r in results:
         if r is None:
